@@ -21,6 +21,22 @@ MUTS = {
  "M12-mixed-fraction-loses-sign": [("src/ka/interpret.py", "s = (f\"{sign*whole_part} {abs(f) - whole_part}\"", "s = (f\"{whole_part} {abs(f) - whole_part}\"")],
  "M13-unit-symbol-prefix-before-name-prefix": [("src/ka/units.py", "    if name in NAME_TO_UNIT:\n        return NAME_TO_UNIT[name]\n    if name in SYMBOL_TO_UNIT:\n        return SYMBOL_TO_UNIT[name]\n",
                                                 "    if name in SYMBOL_TO_UNIT:\n        return SYMBOL_TO_UNIT[name]\n    if name in NAME_TO_UNIT:\n        return NAME_TO_UNIT[name]\n")],
+ # instants and probability (Props/Pipeline3.lean; the unified model calls Model/Instant.lean and Model/Prob.lean)
+ "N1-lt-discrete-uses-floor": [("src/ka/probability.py", "            return left.cdf(math.ceil(right)-1)\n", "            return left.cdf(math.floor(right))\n")],
+ "N2-double-lower-bound-not-adjusted": [("src/ka/probability.py", "            x_adjusted = math.ceil(x_adjusted) - 1\n", "            x_adjusted = math.ceil(x_adjusted)\n")],
+ "N3-binomial-mean": [("src/ka/probability.py", "        return self.n * self.p\n", "        return self.n * (1 - self.p)\n")],
+ "N4-uniformint-cdf-off-by-one": [("src/ka/probability.py", "        return (x-self.lo+1)/(self.hi-self.lo+1)\n", "        return (x-self.lo)/(self.hi-self.lo+1)\n")],
+ "N5-geometric-accepts-zero": [("src/ka/probability.py", "        if p <= 0 or p > 1:\n            raise InvalidParameterException(f\"Parameter p for Geometric", "        if p < 0 or p > 1:\n            raise InvalidParameterException(f\"Parameter p for Geometric")],
+ "N6-ceil-instant-day-plus-one": [("src/ka/types.py", "    return Instant(floor_instant(inst).dt + timedelta(days=1))", "    dt = inst.dt\n    return Instant(datetime(dt.year, dt.month, dt.day+1))")],
+ "N7-instant-str-space": [("src/ka/types.py", "        return self.dt.isoformat()\n", "        return str(self.dt)\n")],
+ "N8-instant-minus-int-adds": [("src/ka/types.py", "def instant_minus_int(inst, i):\n    delta = timedelta(days=i)\n    return Instant(inst.dt - delta)", "def instant_minus_int(inst, i):\n    delta = timedelta(days=i)\n    return Instant(inst.dt + delta)")],
+ "N9-instant-leq-strict": [("src/ka/types.py", "    return I1.dt <= I2.dt\n", "    return I1.dt < I2.dt\n")],
+ "N10-year-month-completion": [("src/ka/types.py", "        s += \"-01\"\n", "        s += \"-02\"\n")],
+ "N11-validate-time-skipped-on-minus": [("src/ka/types.py", "def instant_minus_quantity(inst, q):\n    validate_time(q)\n", "def instant_minus_quantity(inst, q):\n")],
+ "N12-event-eq-accepts-right": [("src/ka/probability.py", "        if x == 1: return self.p\n", "        if x == 1: return 1 - self.p\n")],
+ "N13-exponential-cdf-no-guard": [("src/ka/probability.py", "        if x < 0:\n            return 0\n        return 1-math.exp(-self.lam * x)", "        return 1-math.exp(-self.lam * x)")],
+ "N14-gaussian-sqrt2": [("src/ka/probability.py", "(self.stddev*math.sqrt(2))", "(self.stddev*2)")],
+ "N15-span-seconds-int": [("src/ka/types.py", "def instant_plus_quantity(inst, q):\n    validate_time(q)\n    delta = timedelta(seconds=float(q.mag))", "def instant_plus_quantity(inst, q):\n    validate_time(q)\n    delta = timedelta(seconds=int(q.mag))")],
  "M10-conditions-short-circuit": [("src/ka/eval.py", "            if result == 0:\n                success = False\n", "            if result == 0:\n                success = False\n                break\n")],
 }
 names = sys.argv[1:] or list(MUTS)
